@@ -5,7 +5,7 @@
 
 use crate::engine::{Acc, Fail};
 use crate::entity::{EntitySpec, Mtime, PStep, ReqSpec};
-use crate::props::{c01, c03, c12, c13, c16, stream};
+use crate::props::{c01, c03, c04, c05, c06, c12, c13, c15, c16, c19, stream};
 use crate::reqgen;
 use crate::util::Bs;
 
@@ -279,11 +279,138 @@ pub fn stream_ops(data: &[u8]) -> Vec<(&'static str, Fail)> {
     out
 }
 
+/// serve(): If-Range (C05), multipart framing (C06) and HEAD/GET agreement (C15) on the same decoded
+/// case as `serve_total`, with modification times that do not depend on the wall clock (these
+/// oracles compare several serve() calls).
+pub fn serve_sem(data: &[u8]) -> Vec<(&'static str, Fail)> {
+    crate::engine::LIGHT.store(true, std::sync::atomic::Ordering::Relaxed);
+    let mut out = Vec::new();
+    let Some(mut c) = decode_serve(data) else { return out };
+    if matches!(c.ent.mtime, Mtime::Future(..)) || matches!(c.ent.mtime, Mtime::At(s, _) if s + 5 >= reqgen::now_secs()) {
+        c.ent.mtime = Mtime::At(reqgen::T0, 0);
+    }
+    if c.req.method != "GET" && c.req.method != "HEAD" {
+        c.req.method = "GET".into();
+    }
+    let mut acc = Acc::new();
+    let c1 = c01::Case { ent: c.ent.clone(), req: c.req.clone() };
+    collect("C05", c05::check(&c1, &mut acc), &mut out);
+    collect("C06", c06::check(&c1, &mut acc), &mut out);
+    collect("C15", c15::check_serve(&c1, &mut acc), &mut out);
+    out
+}
+
+pub fn decode_cond(data: &[u8]) -> Option<c04::Case> {
+    let mut r = Rd::new(data);
+    let e = r.u8();
+    let etag = match e % 4 {
+        0 => None,
+        k => Some(reqgen::quote(reqgen::OPAQUES[(e as usize / 4) % reqgen::OPAQUES.len()], k == 2)),
+    };
+    let mtime = match r.u8() % 6 {
+        0 => Mtime::None,
+        1 => Mtime::At(reqgen::T0, 0),
+        2 => Mtime::At(reqgen::T0, 1),
+        3 => Mtime::At(reqgen::T0, 999_999_999),
+        4 => Mtime::At(0, 0),
+        _ => Mtime::At(reqgen::T0 + 86_400, 500_000_000),
+    };
+    let flags = r.u8();
+    let mut field = |on: bool| -> Option<Option<Bs>> {
+        if !on {
+            return Some(None);
+        }
+        let v = r.field();
+        http::HeaderValue::from_bytes(v).ok()?;
+        Some(Some(Bs(v.to_vec())))
+    };
+    let if_match = field(flags & 1 != 0)?;
+    let if_none_match = field(flags & 2 != 0)?;
+    let if_modified_since = field(flags & 4 != 0)?;
+    let if_unmodified_since = field(flags & 8 != 0)?;
+    let range = field(flags & 16 != 0)?;
+    Some(c04::Case {
+        etag,
+        mtime,
+        method: if flags & 32 != 0 { "HEAD".into() } else { "GET".into() },
+        if_match,
+        if_none_match,
+        if_modified_since,
+        if_unmodified_since,
+        range,
+    })
+}
+
+/// Conditional requests against the literal RFC 7232 evaluator (C04).
+pub fn cond_diff(data: &[u8]) -> Vec<(&'static str, Fail)> {
+    crate::engine::LIGHT.store(true, std::sync::atomic::Ordering::Relaxed);
+    let mut out = Vec::new();
+    let Some(c) = decode_cond(data) else { return out };
+    let mut acc = Acc::new();
+    collect("C04", c04::check(&c, &mut acc), &mut out);
+    out
+}
+
+struct DirState {
+    tree: c19::Tree,
+    rt: tokio::runtime::Runtime,
+    dirs: (std::sync::Arc<http_serve::dir::FsDir>, std::sync::Arc<http_serve::dir::FsDir>),
+}
+
+/// FsDir::get on arbitrary request paths against a fixed tree (C19). The tree and the runtime are
+/// built once per process; the check never modifies the tree.
+pub fn fsdir_path(data: &[u8]) -> Vec<(&'static str, Fail)> {
+    use http_serve::dir::FsDir;
+    static STATE: std::sync::OnceLock<DirState> = std::sync::OnceLock::new();
+    let mut out = Vec::new();
+    let st = STATE.get_or_init(|| {
+        let tree = c19::make_tree(&format!("c19-fuzz-{}", std::process::id()));
+        let rt = tokio::runtime::Builder::new_multi_thread().worker_threads(1).max_blocking_threads(2).build().expect("runtime");
+        let dirs = (FsDir::builder().auto_gzip(true).for_path(&tree.base).unwrap(), FsDir::builder().auto_gzip(false).for_path(&tree.base).unwrap());
+        // The state lives for the whole process: remove the scratch tree when the process exits.
+        static DIR: std::sync::OnceLock<std::path::PathBuf> = std::sync::OnceLock::new();
+        extern "C" fn cleanup() {
+            if let Some(d) = DIR.get() {
+                let _ = std::fs::remove_dir_all(d);
+            }
+        }
+        if DIR.set(tree.scratch.dir.clone()).is_ok() {
+            unsafe { libc::atexit(cleanup) };
+        }
+        DirState { tree, rt, dirs }
+    });
+    let mut r = Rd::new(data);
+    let m = r.u8();
+    let ae = r.field();
+    let Ok(path) = std::str::from_utf8(&data[r.p.min(data.len())..]) else { return out };
+    let accept_encoding = match m % 4 {
+        0 => None,
+        1 => Some("gzip".to_string()),
+        2 => Some("identity".to_string()),
+        _ => match std::str::from_utf8(ae) {
+            // only values on which the C16 reference gives one answer (C19's oracle needs the decision)
+            Ok(s) if http::HeaderValue::from_str(s).is_ok() && matches!(c16::reference(Some(s.as_bytes())), Some(v) if v.len() == 1) => Some(s.to_string()),
+            _ => return out,
+        },
+    };
+    let c = c19::Case {
+        path: path.to_string(),
+        accept_encoding,
+        auto_gzip: m & 4 != 0,
+    };
+    let mut acc = Acc::new();
+    collect("C19", c19::check(&st.rt, &st.tree, &st.dirs, &c, &mut acc), &mut out);
+    out
+}
+
 pub const TARGETS: &[(&str, fn(&[u8]) -> Vec<(&'static str, Fail)>)] = &[
     ("serve_total", serve_total),
     ("range_diff", range_diff),
     ("accept_encoding", accept_encoding),
     ("stream_ops", stream_ops),
+    ("serve_sem", serve_sem),
+    ("cond_diff", cond_diff),
+    ("fsdir_path", fsdir_path),
 ];
 
 pub fn target(name: &str) -> Option<fn(&[u8]) -> Vec<(&'static str, Fail)>> {
@@ -298,6 +425,9 @@ pub fn targets_for(id: &str) -> Vec<&'static str> {
         "C16" | "C17" => vec!["accept_encoding"],
         "C08" | "C09" | "C11" => vec!["stream_ops"],
         "C12" | "C20" => vec!["serve_total", "stream_ops"],
+        "C05" | "C06" | "C15" => vec!["serve_sem"],
+        "C04" => vec!["cond_diff"],
+        "C19" => vec!["fsdir_path"],
         _ => vec![],
     }
 }
